@@ -77,6 +77,15 @@ theorem diagonal_neighbors_spec (l : Lattice) (hx : 0 < l.x) :
     ((l.diagonalNeighbors false).map norm).Perm (edges adjD l.x l.y l.periodic) :=
   diagonal_perm_edges l hx
 
+/-- the `'horizontal_neighbor'` and `'vertical_neighbor'` edge types on their own -/
+theorem horizontal_neighbors_spec (l : Lattice) (hx : 0 < l.x) :
+    ((l.horizontalNeighbors false).map norm).Perm (edges adjH l.x l.y l.periodic) :=
+  horizontal_perm_edges l hx
+
+theorem vertical_neighbors_spec (l : Lattice) (hx : 0 < l.x) :
+    ((l.verticalNeighbors false).map norm).Perm (edges adjV l.x l.y l.periodic) :=
+  vertical_perm_edges l hx
+
 theorem diagonal_ordered_perm (l : Lattice) :
     (l.diagonalNeighbors true).Perm (l.diagonalNeighbors false ++ (l.diagonalNeighbors false).map Prod.swap) :=
   diagonal_ordered_perm' l
